@@ -465,9 +465,17 @@ func (c *Ctx) ruleDispatcherLoop(rule string) {
 	v := c.vocab([]string{"step", "senderr", "cap=", "running=", "pending="}, map[string]bool{"step": true})
 	sr := v.seq(rule, false)
 	base := sr.classify
+	var runningKeys map[string]bool
+	if isRunning != nil {
+		runningKeys = c.P.roleKeys(isRunning)
+	}
 	sr.classify = func(fr *Frame, call *ast.CallExpr, ce *Callee, args []Value) *callEvent {
-		if isRunning != nil && c.P.roleKeys(isRunning)[ce.Key] {
+		if runningKeys[ce.Key] {
 			return &callEvent{Atomic: true, Results: tok("running")}
+		}
+		if ce.Key == kMgrLen {
+			// the pending count is recognised at its call (condExpr); its loop over the queues is of no interest here
+			return &callEvent{Atomic: true}
 		}
 		return base(fr, call, ce, args)
 	}
@@ -531,31 +539,98 @@ func (c *Ctx) ruleDispatcherLoop(rule string) {
 	if n == 0 {
 		c.Rep.undecided(rule, R.DispLoop.Short(), "no step found", "", "no call of the dispatcher step in the dispatcher goroutine")
 	}
-	// the goroutine's outer loop ranges over / receives from the signal channel it was given
-	outer := false
+	// the goroutine consumes its signal channel at exactly one place, once per pass, and ends when the channel is
+	// closed: either its outer loop ranges over the channel, or a bare outer loop starts each pass with a comma-ok
+	// receive and leaves (does not go round again) when the channel is found closed. The signal is a one-slot coalescing
+	// wake-up: any other receive (e.g. "drop the stale wake-up" after a pass) can swallow a notify that arrived after
+	// the last look at the queue.
+	dinfo := R.DispLoop.Info()
+	isChanExpr := func(e ast.Expr) bool {
+		_, isChan := dinfo.TypeOf(e).Underlying().(*types.Chan)
+		return isChan
+	}
+	var ranges []*ast.RangeStmt
+	var recvs []*ast.UnaryExpr
+	commaOK := map[*ast.UnaryExpr]bool{}
 	ast.Inspect(R.DispLoop.Body, func(x ast.Node) bool {
-		if rs, ok := x.(*ast.RangeStmt); ok {
-			if _, isChan := R.DispLoop.Info().TypeOf(rs.X).Underlying().(*types.Chan); isChan {
-				outer = true
+		switch n := x.(type) {
+		case *ast.RangeStmt:
+			if isChanExpr(n.X) {
+				ranges = append(ranges, n)
+			}
+		case *ast.UnaryExpr:
+			if n.Op == token.ARROW && isChanExpr(n.X) {
+				recvs = append(recvs, n)
+			}
+		case *ast.AssignStmt:
+			if len(n.Lhs) == 2 && len(n.Rhs) == 1 {
+				if u, ok := ast.Unparen(n.Rhs[0]).(*ast.UnaryExpr); ok && u.Op == token.ARROW {
+					if id, ok := n.Lhs[1].(*ast.Ident); !ok || id.Name != "_" {
+						commaOK[u] = true
+					}
+				}
 			}
 		}
 		return true
 	})
-	c.Rep.check(outer, rule, R.DispLoop.Short(), "dispatcher does not range over its signal channel", c.P.pos(R.DispLoop.Body), "outer loop ranges over the signal channel", "the dispatcher goroutine must range over its signal channel (so that it ends when the channel is closed and wakes on every notify)")
-	// the signal is a one-slot coalescing wake-up: it may be consumed only by that range. Any other receive
-	// (e.g. "drop the stale wake-up" after a pass) can swallow a notify that arrived after the last look at the queue.
-	extra := 0
-	ast.Inspect(R.DispLoop.Body, func(x ast.Node) bool {
-		if u, ok := x.(*ast.UnaryExpr); ok && u.Op == token.ARROW {
-			if _, isChan := R.DispLoop.Info().TypeOf(u.X).Underlying().(*types.Chan); isChan {
-				extra++
-				c.Rep.fail(rule, R.DispLoop.Short(), "extra receive in the dispatcher goroutine", c.P.pos(u), "the dispatcher goroutine receives from a channel outside its range loop: a wake-up consumed there is lost (jobs stay pending with free capacity until some other event)")
+	switch {
+	case len(ranges) == 1 && len(recvs) == 0:
+		c.Rep.ok(rule, R.DispLoop.Short()+": the outer loop ranges over the signal channel, which is consumed nowhere else", c.P.pos(ranges[0]), "one range over the signal channel, no other receive", true)
+	case len(ranges) == 0 && len(recvs) == 1:
+		u := recvs[0]
+		c.Rep.check(commaOK[u], rule, R.DispLoop.Short(), "dispatcher does not range over its signal channel", c.P.pos(u), "receive in comma-ok form",
+			"the dispatcher goroutine receives from its signal channel without looking at the second result: it cannot tell a closed channel from a wake-up and never ends (Stop waits for it for ever, or it spins)")
+		if commaOK[u] {
+			sq := &seqRule{c: c, rule: rule}
+			sq.exprVal = func(fr *Frame, e ast.Expr) (Value, bool) {
+				if ast.Unparen(e) == ast.Expr(u) {
+					return Value{Kind: VTok, S: "sig"}, true
+				}
+				return Value{}, false
 			}
+			sq.classify = func(fr *Frame, call *ast.CallExpr, ce *Callee, args []Value) *callEvent {
+				if f := c.P.byObj[ce.Key]; f != nil && (f == R.Step || c.reachesSync(f, R.Step.Key)) {
+					return &callEvent{Name: "pass", Atomic: true}
+				}
+				if ce.Builtin != "" || ce.Conv {
+					return nil
+				}
+				return &callEvent{Atomic: true}
+			}
+			sq.condSym = func(fr *Frame, token, rel string) string {
+				if token == "sigok" {
+					return "open=" + rel
+				}
+				return ""
+			}
+			leaves, again, unguarded := false, "", ""
+			for _, sg := range sq.segments(R.DispLoop) {
+				if sg.has("open=false") {
+					if sg.How == "next" {
+						again = sg.End
+					} else {
+						leaves = true
+					}
+				}
+				if sg.has("pass") && !sg.before("open=true", "pass") && sg.Kind == "iter" {
+					unguarded = sg.End
+				}
+			}
+			c.Rep.check(leaves && again == "", rule, R.DispLoop.Short(), "dispatcher does not range over its signal channel", c.P.pos(u), "closed channel ⇒ the goroutine leaves its loop",
+				"the dispatcher goroutine does not leave its loop when its signal channel is found closed (it goes round again at "+again+"): after Stop it spins or never ends")
+			c.Rep.check(unguarded == "", rule, R.DispLoop.Short(), "dispatcher does not range over its signal channel", c.P.pos(u), "each pass follows one successful receive",
+				"a pass of the dispatcher (ending at "+unguarded+") runs without a wake-up having been received in that iteration")
 		}
-		return true
-	})
-	if extra == 0 {
-		c.Rep.ok(rule, R.DispLoop.Short()+": the signal is consumed only by the range loop", c.P.pos(R.DispLoop.Body), "no other receive in the goroutine", true)
+	default:
+		if len(ranges) == 0 {
+			c.Rep.fail(rule, R.DispLoop.Short(), "dispatcher does not range over its signal channel", c.P.pos(R.DispLoop.Body), "the dispatcher goroutine must range over its signal channel (so that it ends when the channel is closed and wakes on every notify)")
+		}
+		for _, u := range recvs {
+			c.Rep.fail(rule, R.DispLoop.Short(), "extra receive in the dispatcher goroutine", c.P.pos(u), "the dispatcher goroutine receives from a channel outside its range loop: a wake-up consumed there is lost (jobs stay pending with free capacity until some other event)")
+		}
+		for _, r := range ranges[min(1, len(ranges)):] {
+			c.Rep.fail(rule, R.DispLoop.Short(), "extra receive in the dispatcher goroutine", c.P.pos(r), "the dispatcher goroutine ranges over a channel a second time: a wake-up consumed there is lost")
+		}
 	}
 }
 
